@@ -85,7 +85,7 @@ theorem captureTerm_lit (T : Tables) (hT : TablesOK T) (urlOk : List Nat → Boo
       subst this
       simp only [writeIRI, List.cons_append, List.append_assoc, List.nil_append]
       simp [captureTerm, posObject, captureLiteral, scanLit_body T hT e ascii lex hlex,
-        goString_id_of_scalar hlex, captureIRI_write T hT urlOk e ascii dt hdt]
+        goString_id_of_scalar hlex, captureIRI_write T hT urlOk e ascii dt hdt, hl]
 
 
 theorem captureTerm_obj (T : Tables) (hT : TablesOK T) (urlOk : List Nat → Bool) (e : End)
@@ -127,6 +127,16 @@ theorem statement_write (T : Tables) (hT : TablesOK T) (urlOk : List Nat → Boo
   simp only at hs hp ho hg
   unfold statement
   simp only [quadBody, List.append_assoc, List.cons_append, List.nil_append]
+  obtain ⟨cs, rs, hcs, hcs'⟩ := nodeW_head T ascii label urlOk s hs
+  have hskip : ∀ tl, skipToStmt T false (nodeW T ascii label s ++ tl)
+      = some (nodeW T ascii label s ++ tl) := by
+    intro tl
+    rw [hcs]
+    rcases hcs' with rfl | rfl
+    · simp [skipToStmt, isSpace, hT.space_lt]
+    · simp [skipToStmt, isSpace, hT.space_us]
+  rw [hskip]
+  simp only
   rw [captureTerm_node T hT urlOk e posSubject rfl ascii label hl s hs]
   simp only
   rw [captureTerm_sp T hT, captureTerm_pred T hT urlOk e posPredicate ascii label p hp]
@@ -170,7 +180,7 @@ theorem statement_write (T : Tables) (hT : TablesOK T) (urlOk : List Nat → Boo
 
 theorem statement_nil (T : Tables) (urlOk : List Nat → Bool) (quads : Bool) :
     statement T urlOk .eof quads [] = .done := by
-  simp [statement, captureTerm, End.cls]
+  simp [statement, skipToStmt]
 
 theorem encodeDoc_length (T : Tables) (urlOk : List Nat → Bool) (ascii : Bool)
     (label : β → List Nat) (quads : Bool) (qs : List (Quad β)) (hwf : ∀ q ∈ qs, WFQuad urlOk q) :
